@@ -50,6 +50,19 @@ pub fn engine(name: &str) -> Option<Engine> {
                 "OS randomness (seeded stream, hook H5)",
             ],
         }),
+        "D" => Some(Engine {
+            name: "D",
+            make: crate::eng_d::make_world,
+            gen_cfg: crate::eng_d::gen_cfg,
+            names: crate::eng_d::OP_NAMES,
+            real: &["renetcode::NetcodeServer with its tables at their real sizes (up to the 1024-client ceiling)", "renetcode::NetcodeClient (up to 1100 of them)"],
+            stub: &[
+                "datagram network (immediate, loss-free hand-over; the schedule decides the order of handshake stages)",
+                "clocks (update(dt) driven by the simulator)",
+                "OS randomness (seeded stream, hook H5)",
+                "token backend (ConnectToken::generate called by the harness)",
+            ],
+        }),
         _ => None,
     }
 }
@@ -81,7 +94,7 @@ pub fn plans(prop: &str) -> Vec<Plan> {
         "C04" => vec![p("B", "session", 36_000, 1_500_000, 300)],
         "C05" => vec![p("B", "handshake", 36_000, 1_500_000, 250)],
         "C07" => vec![p("B", "hostile", 36_000, 1_500_000, 250)],
-        "C10" => vec![p("B", "handshake", 24_000, 800_000, 300), p("B", "session", 12_000, 400_000, 300)],
+        "C10" => vec![p("B", "handshake", 24_000, 800_000, 300), p("B", "session", 12_000, 400_000, 300), p("D", "scale", 1_500, 40_000, 60)],
         "C17" => vec![p("B", "handshake", 18_000, 600_000, 250), p("B", "tamper", 600, 12_000, 120)],
         "C18" => vec![p("B", "liveness", 24_000, 1_000_000, 300), p("B", "handshake", 12_000, 400_000, 250)],
         "C19" => vec![p("B", "hostile", 18_000, 600_000, 250), p("B", "handshake", 18_000, 600_000, 250)],
